@@ -317,6 +317,69 @@ def run_many_files(ctx):
     return n
 
 
+MIXED_RULES = 'rule sized {\n  Resources.*.Properties.Size <= 10 <<too big>>\n}\nrule named {\n  Name == "x"\n}\nrule planned {\n  resource_changes[*].change.after.size <= 10\n}\n'
+MIXED_DOCS = {
+    'tpl.json': {'Resources': {'a': {'Type': 'AWS::S3::Bucket', 'Properties': {'Size': 50}}}, 'Name': 'x'},
+    'tpl_ok.yaml': {'Resources': {'a': {'Type': 'AWS::S3::Bucket', 'Properties': {'Size': 5}}}, 'Name': 'x'},
+    'plain.json': {'Name': 'y', 'Other': 1},
+    'plan.json': {'resource_changes': [{'address': 'aws_s3_bucket.b', 'type': 'aws_s3_bucket', 'change': {'after': {'size': 50}}}], 'Name': 'x'},
+    'list.json': [1, 2],
+}
+
+
+def run_mixed_kinds(ctx):
+    """what was evaluated earlier in the process must not matter: data files of different kinds (a CloudFormation template, a
+    template that passes, a plain document, a Terraform plan, a list) in ONE console run, in several orders - the part of the output
+    that belongs to a file is what a run on that file alone prints, and the exit code is the worst of the single runs"""
+    import yaml
+    d = os.path.join(ctx.wd, 'mixed')
+    files = {'r.guard': MIXED_RULES}
+    for nm, doc in MIXED_DOCS.items():
+        files[nm] = yaml.safe_dump(doc) if nm.endswith('.yaml') else json.dumps(doc, indent=1)
+    e2e.write_files(d, files)
+    names = list(MIXED_DOCS)
+    orders = [names, names[::-1], ['plain.json', 'tpl.json', 'plan.json'], ['tpl.json', 'plain.json'], ['plain.json', 'tpl.json'], ['plan.json', 'tpl.json', 'plain.json'],
+              ['tpl_ok.yaml', 'tpl.json', 'plain.json'], ['list.json', 'tpl.json']]
+    modes = [('console', []), ('console-all', ['-S', 'all']), ('verbose', ['-v'])]
+    jobs, meta = [], []
+    for mlab, flags in modes:
+        for nm in names:
+            jobs.append({'args': ['validate', '-r', 'r.guard', '-d', nm] + flags, 'cwd': d}); meta.append((mlab, (nm,)))
+        for od in orders:
+            jobs.append({'args': ['validate', '-r', 'r.guard'] + [x for nm in od for x in ('-d', nm)] + flags, 'cwd': d}); meta.append((mlab, tuple(od)))
+    res = dict(zip(meta, e2e.run_many(jobs)))
+    head = re.compile(r'^(\S*?)(tpl\.json|tpl_ok\.yaml|plain\.json|plan\.json|list\.json) Status = ', re.M)
+
+    def sections(text):
+        out, marks = {}, [(m.start(), m.group(2)) for m in head.finditer(text)]
+        for i, (pos, nm) in enumerate(marks):
+            out[nm] = text[pos:(marks[i + 1][0] if i + 1 < len(marks) else len(text))]
+        return out
+    n = 0
+    for (mlab, od), (code, so, se) in res.items():
+        if len(od) == 1:
+            continue
+        n += 1
+        text = so.decode('utf-8', 'replace')
+        info = {'class': 'history-mixed-kinds', 'mode': mlab, 'order': list(od), 'rules': MIXED_RULES, 'stdout': text[:1500]}
+        singles = {nm: res[(mlab, (nm,))] for nm in od}
+        want = max((c for c, _, _ in singles.values()), key=lambda c: (c not in (0, 19), c))
+        if code != want and not any(c not in (0, 19) for c, _, _ in singles.values()):
+            ctx.failing('validate (%s) over %s exits %s; the files alone exit %s' % (mlab, list(od), code, [singles[nm][0] for nm in od]), info, found=True)
+        secs = sections(text)
+        for nm in od:
+            alone = sections(singles[nm][1].decode('utf-8', 'replace')).get(nm)
+            if alone is None:
+                continue          # the file alone prints no report section (an error exit): nothing to compare
+            got = secs.get(nm)
+            if got is None or sorted(got.strip().splitlines()) != sorted(alone.strip().splitlines()):
+                ctx.failing('validate (%s) over %s: the report of %s differs from the report of a run on %s alone (what was evaluated earlier matters)'
+                            % (mlab, list(od), nm, nm), dict(info, file=nm, alone=alone[:800], in_batch=(got or '')[:800]), found=True)
+    ctx.coverage['mixed_kind_runs'] = n
+    ctx.coverage['evaluations'] += len(jobs)
+    return n
+
+
 def run(ctx):
     ctx.build(cli=True)
     pr = ctx.proofs('C05')
@@ -329,7 +392,7 @@ def run(ctx):
     n1 = run_processes(ctx, 60 if thorough else 14, thorough)
     n2 = run_in_process(ctx, 60 if thorough else 25)
     n3 = run_environment(ctx, 40 if thorough else 10)
-    n4 = run_history(ctx, 40 if thorough else 10) + run_many_files(ctx)
+    n4 = run_history(ctx, 40 if thorough else 10) + run_many_files(ctx) + run_mixed_kinds(ctx)
     ctx.coverage['distinct_nontrivial'] = n1 + n2 + n3 + n4
     ctx.coverage['rule'] = ('group = (generated rules + document, command and output mode); each group is run in %d fresh processes and compared (bytes for '
                             'JSON/YAML/SARIF/print-json/parse-tree/rulegen, JUnit with time attributes masked, sorted lines for console output, stderr likewise); '
